@@ -189,7 +189,45 @@ def r4_pair_validation(ctx):
     ctx.ob("R18.4", "loader:builder-error-propagated", okp, "", "`with_single_cert(..)?` — a rejected pair fails the load" if okp else "the builder's result is not propagated with `?`")
 
 
+def r6_info_is_about_the_leaf(ctx):
+    """the certificate whose expiry gates the reload and whose details are reported is the first one of the file — the leaf
+    that with_single_cert serves — not some other certificate of the chain"""
+    body = None
+    for k, b in ctx.P.scan():
+        if k.startswith("util::cert_analyzer::CertificateInfo::from_pem_bytes") and "{closure" not in k:
+            body = b
+    if body is None:
+        ctx.missing("R18.6", "CertificateInfo::from_pem_bytes")
+        return
+    ctx.bodies_touched.add(body.name)
+    o = ctx.origins(body)
+    der = calls_norm(body, "::from_der")
+    if not ctx.floor("R18.6", "X509 parse (from_der) in from_pem_bytes", len(der), 1):
+        return
+    src = o.of_operand(der[0].args[0])
+    first = False
+    for s in subterms(src):
+        if is_call_term(s, "::index") and len(s[3]) == 2 and isinstance(s[3][1], tuple) and s[3][1][0] == "const" and s[3][1][1] == 0:
+            first = True
+        if is_call_term(s, "::first", "Iterator::next", "Iterator>::next") and not any(is_call_term(x, "::rev", "::last", "::pop") for x in subterms(s)):
+            first = True
+    bad = [s for s in subterms(src) if is_call_term(s, "::pop", "::last", "::rev", "::swap_remove", "Iterator::last", "Iterator::max_by_key", "Iterator::min_by_key")]
+    ok = first and not bad
+    ctx.ob("R18.6", "from_pem_bytes:analyses-the-first-certificate", ok, der[0].site, "the analysed certificate is element 0 of the parsed chain (the served leaf)" if ok else
+           "the certificate that is analysed is `%s`: not the first certificate of the file. With a full-chain file the expiry gate and the reported details then describe a CA certificate — an expired leaf passes the "
+           "gate and is served, while operators are shown the CA's subject and expiry" % fmt(src)[:100])
+    fp = None
+    for k, b in ctx.P.scan():
+        if k.startswith("util::cert_analyzer::CertificateInfo::from_pem_file") and "{closure" not in k:
+            fp = b
+    if fp is not None:
+        of = ctx.origins(fp)
+        okf = bool(calls_norm(fp, "CertificateInfo::from_pem_bytes"))
+        ctx.ob("R18.6", "from_pem_file:delegates-to-from_pem_bytes", okf, "", "from_pem_file reads the file and analyses it with from_pem_bytes" if okf else "from_pem_file does not use from_pem_bytes")
+
+
 def run(ctx):
+    r6_info_is_about_the_leaf(ctx)
     r1_r5_reload(ctx)
     r2_writers(ctx)
     r3_snapshot(ctx)
